@@ -20,7 +20,7 @@ class Unit:
         self.bound = ""; self.timeout = 600; self.fns = []; self.stubs = []; self.ncovers = 0
         self.file = None; self.module = None; self.attach = None; self.crate = None
         self.harness_path = None; self.kind = "kani"; self.contract_for = None; self.pair = None
-        self.src = ""; self.should_panic = False
+        self.src = ""; self.should_panic = False; self.role = "contract"
 
     @property
     def uid(self):
@@ -71,6 +71,7 @@ def load_kani(pid):
                 elif k == "fns": u.fns = [x for x in v.split(",") if x]
                 elif k == "pair": u.pair = v
                 elif k == "name": pass
+                elif k == "role": u.role = v
                 else: raise ValueError("unknown @unit key %s in %s" % (k, f))
             j = i + 1
             while j < len(lines):
